@@ -152,6 +152,23 @@ def run(ctx: Ctx):
         if pname == 'mixed_core':
             continue
         one(ctx, cs, pname, over, core=True, max_sets=(14 if ctx.tier == 'quick' else 40))
+    if ctx.shard is None or ctx.shard[0] == 0:
+        # environment axis: concat of a few cut scores in child interpreters (other hash seeds, warnings as errors, ASCII default
+        # encoding, -O, another current directory): same document, same index pairs
+        from .. import envchild
+        from ..common import subseed
+        texts, frs = [], []
+        for k_ in range(4):
+            dd, _ = MC.build(subseed(ctx.seed, 'c19env', k_), 'kern_core', {'measures': (2, 4)})
+            ls_ = [ln.render(0) for ln in dd.lines]
+            bars_ = [i_ for i_, ln in enumerate(dd.lines) if ln.kind == 'bar']
+            if not bars_:
+                continue
+            cut_ = bars_[len(bars_) // 2]
+            texts.append('\n'.join(ls_) + '\n')
+            frs.append(['\n'.join(ls_[:cut_]), '\n'.join(ls_[cut_:]) + '\n'])
+        if texts:
+            envchild.run_variants(ctx, texts, fragments=frs)
     ctx.floors = {'concat': ('concat_calls', 300), 'fragment exports': ('fragment_exports', 600)}
 
 
